@@ -6,6 +6,7 @@ import (
 	"sort"
 
 	"github.com/orbs-network/lean-helix-go/services/interfaces"
+	"github.com/orbs-network/lean-helix-go/spec/types/go/primitives"
 
 	"verif/ref"
 	"verif/spi"
@@ -62,6 +63,7 @@ func NewAdversary(w *World, p *Profile) *Adversary {
 		{"honestLike", 6, a.honestLike},
 		{"crossInstance", 5, a.crossInstance},
 		{"corruptNested", 3, a.corruptNested},
+		{"reblock", 6, a.reblock},
 	}
 	for i := range a.strat {
 		if p.AdvWeights != nil {
@@ -258,6 +260,9 @@ func (a *Adversary) views(h uint64) []uint64 {
 		out = append(out, v)
 	}
 	sort.Slice(out, func(i, j int) bool { return out[i] < out[j] })
+	if len(out) == 0 {
+		out = []uint64{0, 1} // nobody is at that height any more (an earlier action of this step moved them on)
+	}
 	return out
 }
 
@@ -347,6 +352,35 @@ func (a *Adversary) support(h uint64) bool {
 			inst = uint64(spi.OtherInstanceId)
 		}
 	}
+	if a.r.Intn(5) == 0 {
+		// COMMITs / PREPAREs in the name of correct members: garbage signature, but the member's genuine random-seed share
+		// (replayed from any COMMIT of that member at this height — the share does not depend on the block)
+		var honest []string
+		for _, m := range c.Members {
+			if id := string(m.Id); a.w.IsCorrect(id) {
+				honest = append(honest, id)
+			}
+		}
+		for _, n := range targets {
+			for _, hid := range honest {
+				if hid == n.Id || a.r.Intn(2) == 0 {
+					continue
+				}
+				env, typ := ref.EnvC, ref.C
+				if a.r.Intn(3) == 0 {
+					env, typ = ref.EnvP, ref.P
+				}
+				a.w.Mon.Stats["adv support in the name of a correct member"]++
+				a.send(bm[0], n.Id, a.mkRefMsg(env, typ, hid, inst, h, p.v, []byte(p.hash), nil))
+				did = true
+			}
+		}
+		// ... followed by a genuine COMMIT of a Byzantine member, which makes the receiver count what it holds
+		for _, n := range targets {
+			a.send(bm[0], n.Id, a.mkRefMsg(ref.EnvC, ref.C, bm[0], inst, h, p.v, []byte(p.hash), nil))
+		}
+		return true
+	}
 	for _, b := range bm {
 		for _, n := range targets {
 			k := fmt.Sprintf("sup|%s|%s|%d|%d|%s|%d", b, n.Id, h, p.v, p.hash, inst)
@@ -364,6 +398,87 @@ func (a *Adversary) support(h uint64) bool {
 		}
 	}
 	return did
+}
+
+// reblock: blocks travel unsigned next to the signed content. Take a PREPREPARE / NEW_VIEW seen on the wire (of anybody)
+// and send its exact content with another block attached: the block that really hashes to the proposed hash (repairing a
+// proposal whose sender attached a wrong one), some other known block, a fresh one, or none.
+func (a *Adversary) reblock(h uint64) bool {
+	w := a.w
+	var cands []*Flight
+	for i := len(w.Seen) - 1; i >= 0 && len(cands) < 10; i-- {
+		f := w.Seen[i]
+		if f.Msg != nil && f.Msg.H == h && (f.Msg.Env == ref.EnvPP || f.Msg.Env == ref.EnvNV) && len(f.Msg.Hash) > 0 {
+			cands = append(cands, f)
+		}
+	}
+	nodes := a.at(h)
+	if len(cands) == 0 || len(nodes) == 0 {
+		return false
+	}
+	src := cands[a.r.Intn(len(cands))]
+	var late *Node
+	if a.r.Intn(2) == 0 {
+		// aimed at a node that has not received the proposal of the view it is in (while the others may be far ahead in it)
+		for _, n := range nodes {
+			v := uint64(n.St.View())
+			if _, ok := n.Store.GetPreprepareMessage(primitives.BlockHeight(h), primitives.View(v)); ok {
+				continue
+			}
+			for _, f := range cands {
+				if f.Msg.V == v {
+					src, late = f, n
+				}
+			}
+		}
+	}
+	var known []*spi.Blk
+	var fit *spi.Blk
+	for i := len(w.Seen) - 1; i >= 0 && len(known) < 30; i-- {
+		if b := w.Seen[i].Msg; b != nil && b.Block != nil && b.H == h {
+			known = append(known, b.Block)
+			if fit == nil && string(spi.HashOf(b.Block)) == string(src.Msg.Hash) {
+				fit = b.Block
+			}
+		}
+	}
+	var blk interfaces.Block
+	mode := a.r.Intn(4)
+	srcFits := src.Msg.Block != nil && string(spi.HashOf(src.Msg.Block)) == string(src.Msg.Hash)
+	if !srcFits && fit != nil {
+		mode = 0 // the interesting repair: always take it
+	} else if late != nil {
+		mode = 1 + a.r.Intn(2)
+	}
+	switch mode {
+	case 0:
+		if fit == nil {
+			return false
+		}
+		blk = fit
+	case 1:
+		if len(known) == 0 {
+			return false
+		}
+		blk = known[a.r.Intn(len(known))]
+	case 2:
+		blk = a.newBlock(h, false)
+	case 3:
+		blk = nil
+	}
+	raw := &interfaces.ConsensusRawMessage{Content: src.Raw.Content, Block: blk}
+	w.Mon.Stats[fmt.Sprintf("adv reblock mode %d", mode)]++
+	if late != nil && mode != 0 {
+		w.Mon.Stats["adv reblock aimed at a node without the proposal"]++
+		a.send(src.From, late.Id, raw)
+		return true
+	}
+	for _, n := range nodes {
+		if mode == 0 || a.r.Intn(2) == 0 {
+			a.send(src.From, n.Id, raw)
+		}
+	}
+	return true
 }
 
 // barePP: standalone PREPREPARE for a view above 0 from its Byzantine leader.
@@ -746,7 +861,19 @@ func (a *Adversary) vcGames(h uint64) bool {
 	}
 	E := a.newBlock(h, false)
 	var raw *interfaces.ConsensusRawMessage
-	switch a.r.Intn(9) {
+	switch a.r.Intn(10) {
+	case 9: // a plain vote for a later view the same member leads (one or a few rotations ahead, or far away): legitimate, and
+		// it must not get in the way of the votes for the views in between
+		v2 := v + uint64(c.N())*uint64(1+a.r.Intn(3))
+		if a.r.Intn(4) == 0 {
+			v2 = v + uint64(c.N())*(uint64(1)<<uint(20+a.r.Intn(30)))
+		}
+		if c.Leader(v2) != leader {
+			return false
+		}
+		a.w.Mon.Stats["adv vote for a later view of the same leader"]++
+		a.send(b, leader, ref.RawVoteMsg(a.mkVote(b, inst, h, v2, nil), nil))
+		return true
 	case 0: // genuine proof, no block
 		if gp == nil {
 			return false
